@@ -83,6 +83,10 @@ enum Mode {
     Ternary(f64),
     /// every single and double substitution of a full-alphabet value into the +-a pattern of each codeword
     Subst(f64),
+    /// as Subst, for long matrices: at most the stated number of codewords (evenly spaced in the
+    /// enumeration), single substitutions of every full-alphabet value, and a second substitution
+    /// (0 or the flipped sign) in every later position
+    SubstLite(f64, usize),
 }
 
 #[derive(Clone)]
@@ -125,6 +129,29 @@ fn vectors(m: &Small, mode: &Mode) -> Vec<Vec<f64>> {
                         .collect()
                 })
                 .collect()
+        }
+        Mode::SubstLite(a, max_cw) => {
+            let mut out = Vec::new();
+            let cws = m.codewords();
+            let stride = cws.len().div_ceil(*max_cw).max(1);
+            for cw in cws.iter().step_by(stride) {
+                let base: Vec<f64> = (0..n).map(|j| if (cw >> j) & 1 == 1 { -*a } else { *a }).collect();
+                for p in 0..n {
+                    for &v in FULL.iter() {
+                        let mut x = base.clone();
+                        x[p] = v;
+                        out.push(x.clone());
+                        for q in (p + 1)..n {
+                            for u in [0.0, -base[q]] {
+                                let mut y = x.clone();
+                                y[q] = u;
+                                out.push(y);
+                            }
+                        }
+                    }
+                }
+            }
+            out
         }
         Mode::Subst(a) => {
             let mut out = Vec::new();
@@ -283,6 +310,19 @@ pub fn run(run: &Run) -> i32 {
                 }
             }
         }
+        // check degrees 9 and 10 (and 17, 9, 18 in the thorough tier): beyond any small-degree fast path
+        let mut wide = vec![("wide2x12", Small::from_rows(12, &[&[0, 1, 2, 3, 4, 5, 6, 7, 8], &[2, 3, 4, 5, 6, 7, 8, 9, 10, 11]]))];
+        if run.thorough() {
+            wide.push(("wide3x20", Small::from_rows(20, &[&[0, 1, 2, 3, 4, 5, 6, 7, 8, 9, 10, 11, 12, 13, 14, 15, 16], &[3, 5, 7, 9, 11, 13, 15, 17, 19], &[1, 2, 3, 4, 5, 6, 7, 8, 9, 10, 11, 12, 13, 14, 15, 17, 18, 19]])));
+        }
+        for (mname, m) in wide {
+            matrices += 1;
+            for name in &names {
+                for a in if run.thorough() { vec![0.6, 15.875] } else { vec![0.6] } {
+                    jobs.push(Job { name: name.clone(), mname: mname.to_string(), m: m.clone(), mode: Mode::SubstLite(a, 8), limits: limits.clone() });
+                }
+            }
+        }
         extra.insert("jobs".into(), json!(jobs.len()));
         extra.insert("matrices".into(), json!(matrices));
         extra.insert("implementations".into(), json!(names.len()));
@@ -300,7 +340,7 @@ pub fn run(run: &Run) -> i32 {
         run,
         acc,
         Coverage {
-            rule: "36 implementation names (factory-built) x every matrix with all row weights >= 2 of the listed shapes (full power of the stated LLR alphabet) and six named matrices ({+a,-a,0}^n and every single/double substitution of a boundary value into each codeword's sign pattern) x iteration limits {0,1,2,3,10[,50]}. Alphabet: +-1, +-0, +-0.0625 (8-bit round-half boundary), +-0.0624, +-15.875 (=127/8), +-1e30, +-1e-30, +-1e-46 (flushes to 0 in f32), +-5e-324, +-3.7. Half of the (implementation, matrix) pairs receive the matrix through a redundant editing history (bottom-up columns, re-inserted and twice-toggled entries). Duplicate-free product; non-trivial = at least one iteration executed (sign pattern not a codeword and limit >= 1). Per-implementation counters of shortcut / success-after-iterations / failure are in counters.".into(),
+            rule: "36 implementation names (factory-built) x every matrix with all row weights >= 2 of the listed shapes (full power of the stated LLR alphabet) and six named matrices ({+a,-a,0}^n and every single/double substitution of a boundary value into each codeword's sign pattern), plus wide2x12 (check degrees 9 and 10; thorough also wide3x20 with degrees 17, 9, 18) with single/double substitutions into 8 evenly spaced codewords x iteration limits {0,1,2,3,10[,50]}. Alphabet: +-1, +-0, +-0.0625 (8-bit round-half boundary), +-0.0624, +-15.875 (=127/8), +-1e30, +-1e-30, +-1e-46 (flushes to 0 in f32), +-5e-324, +-3.7. Half of the (implementation, matrix) pairs receive the matrix through a redundant editing history (bottom-up columns, re-inserted and twice-toggled entries). Duplicate-free product; non-trivial = at least one iteration executed (sign pattern not a codeword and limit >= 1). Per-implementation counters of shortcut / success-after-iterations / failure are in counters.".into(),
             exhaustive: true,
             extra,
             graph: None,
